@@ -19,7 +19,9 @@ RULE = (
     "distinct devices: unicast plain / with source route / with extended timeout, IEEE-addressed to a known or unknown "
     "device, multicast, broadcast; per attempt an enqueue status {accepted, each of the three busy codes, refusals incl. "
     "undefined codes}; per request a confirmation plan {success, failure status, none, duplicate, before the enqueue reply, "
-    "wrong tag, wrong destination, unsolicited}. Non-trivial = at least two overlapping requests or a retry or a "
+    "wrong tag, wrong destination (another node ID or a small table index, then optionally the own failure), unsolicited}, "
+    "foreign confirmations carrying any outgoing-message type (direct, via address table, via binding, multicast, "
+    "broadcast, undefined). Non-trivial = at least two overlapping requests or a retry or a "
     "mismatching confirmation; distinct by plan."
 )
 ASSUMPTIONS = [
@@ -121,19 +123,22 @@ class SendSim(simncp.SimNcp):
 
     def _confirm(self, i, conf, tag, dest, early=False):
         fail = FAILCONF[self.v14][self.plan["reqs"][i].get("failcode", 0) % 3]
+        wm = self.plan["reqs"][i].get("wmtype", 0)  # outgoing-message type reported by a confirmation that is NOT this request's
         plan = {
             "success": [(0.02, dest, tag, 0)],
             "early": [(0.002, dest, tag, 0)],
             "failure": [(0.02, dest, tag, fail)],
             "none": [],
             "duplicate": [(0.02, dest, tag, 0), (0.03, dest, tag, 0), (0.04, dest, tag, fail)],
-            "wrong-tag": [(0.02, dest, (tag + 1) % 256, 0)],
-            "wrong-dest": [(0.02, (dest + 0x100) & 0xFFFF, tag, 0)],
-            "wrong-then-right": [(0.02, dest, (tag + 3) % 256, fail), (0.05, dest, tag, 0)],
+            "wrong-tag": [(0.02, dest, (tag + 1) % 256, 0, wm)],
+            "wrong-dest": [(0.02, (dest + 0x100) & 0xFFFF, tag, 0, wm)],
+            "wrong-dest-index": [(0.02, i + 1, tag, 0, wm)],
+            "wrong-dest-then-failure": [(0.02, (dest + 0x100) & 0xFFFF, tag, 0, wm), (0.05, dest, tag, fail)],
+            "wrong-then-right": [(0.02, dest, (tag + 3) % 256, fail, wm), (0.05, dest, tag, 0)],
             "late-success": [(60.0, dest, tag, 0)],
         }[conf]
-        for d, dst, tg, status in plan:
-            self.loop.call_later(d, self._send_conf, dst, tg, status)
+        for d, dst, tg, status, *mt in plan:
+            self.loop.call_later(d, self._send_conf, dst, tg, status, mt[0] if mt else 0)
 
     def _send_conf(self, dst, tag, status, mtype=0):
         aps = refezsp.aps_frame(260, 6, 1, 1, 0x0140, 0, 5)
@@ -174,7 +179,7 @@ def expected(req, v14):
             conf = req.get("conf", "success")
             if conf in ("success", "early", "duplicate", "wrong-then-right", "late-success"):
                 return ("ok", k + 1, t)
-            if conf == "failure":
+            if conf in ("failure", "wrong-dest-then-failure"):
                 return ("DeliveryError", k + 1, t)
             return ("TimeoutError", k + 1, t)
         if st_ in BUSY[v14]:
@@ -243,7 +248,7 @@ async def scenario(loop, plan, out):
     for i, req in enumerate(plan["reqs"]):
         tasks.append(asyncio.ensure_future(one(i, req)))
     for u in plan.get("unsolicited", []):
-        loop.call_later(u[0], sim._send_conf, u[1], u[2], u[3])
+        loop.call_later(u[0], sim._send_conf, u[1], u[2], u[3], u[4] if len(u) > 4 else 0)
     await asyncio.wait(tasks, timeout=APS_ACK_TIMEOUT * 2 + 60)
     out["pending_tasks"] = [i for i, x in enumerate(tasks) if not x.done()]
     await asyncio.sleep(70)
@@ -298,7 +303,7 @@ def check(plan) -> Result:
             own = [c for c in sim.confs if c[1] == dev_nwk(i) and acc and c[2] == acc[1] and c[3] == 0]
             if not own or got[2] < own[0][0] - 1e-9:
                 r.bad("C12:returned-before-own-confirmation", f"request {i}: returned at {got[2]}, own confirmations {own}; plan {plan}")
-        if req.get("conf") in ("wrong-tag", "wrong-dest", "duplicate", "wrong-then-right", "late-success", "early"):
+        if req.get("conf") in ("wrong-tag", "wrong-dest", "wrong-dest-index", "wrong-dest-then-failure", "duplicate", "wrong-then-right", "late-success", "early"):
             flags.add("mismatching-or-odd-confirmation")
     if out["pending_left"]:
         r.bad("C12:pending-entry-left", f"{out['pending_left']} entries; plan {plan}")
@@ -357,13 +362,14 @@ def plans(draw, versions=(4, 8, 13, 14)):
                 break
         req = {"kind": kind, "at": round(t * 0.01 + 0.003, 4), "enqueue": enq,
                "conf": draw(st.sampled_from(["success", "success", "failure", "none", "duplicate", "early", "wrong-tag", "wrong-dest",
-                                             "wrong-then-right", "late-success"])),
+                                             "wrong-dest-index", "wrong-dest-then-failure", "wrong-then-right", "late-success"])),
+               "wmtype": draw(st.sampled_from([0, 0, 1, 2, 3, 4, 9])),
                "failcode": draw(st.integers(0, 2))}
         if kind == "uni-ext":
             req["in_table"] = draw(st.booleans())
         reqs.append(req)
     uns = draw(st.lists(st.tuples(st.sampled_from([0.001, 0.017, 0.5, 3.0]), st.sampled_from([0x1001, 0x1002, 0x1003, 0x7777]),
-                                  st.integers(100, 108), st.sampled_from([0, 0x66])).map(list), max_size=3))
+                                  st.integers(100, 108), st.sampled_from([0, 0x66]), st.sampled_from([0, 1, 2, 3, 4])).map(list), max_size=3))
     return {"v": v, "reqs": reqs, "unsolicited": uns}
 
 
